@@ -349,7 +349,7 @@ func genBuilders(repo string) string {
 	fset := token.NewFileSet()
 	var out strings.Builder
 	out.WriteString("(* GENERATED by go2v (builder mode) from pkg/provider/{response,logout_response,attributes}.go -- do not edit *)\n")
-	out.WriteString("From Saml Require Import Base.Bytes Idp.BuilderTypes.\nOpen Scope string_scope.\n\n")
+	out.WriteString("From Saml Require Import Base.Bytes Idp.BuilderTypes.\nLocal Open Scope string_scope.\n\n")
 	files := []*ast.File{parse(fset, repo, "pkg/provider/response.go"), parse(fset, repo, "pkg/provider/logout_response.go"), parse(fset, repo, "pkg/provider/attributes.go"),
 		parse(fset, repo, "pkg/provider/metadata.go"), parse(fset, repo, "pkg/provider/identityprovider.go")}
 	var all []*ast.File
